@@ -92,17 +92,24 @@ impl<'a> World<'a> {
         if d.max_chain >= 3 {
             self.stats.probe("chain>=3");
         }
-        if d.key_len > 16 * 1024 {
-            self.stats.probe("key-file>16KiB");
+        // offsets are stored divided by 8: the encoded width changes at 1 KiB, 128 KiB, 16 MiB
+        if d.key_len > 1024 {
+            self.stats.probe("key-file>1KiB");
         }
-        if d.val_len > 16 * 1024 {
-            self.stats.probe("val-file>16KiB");
+        if d.val_len > 1024 {
+            self.stats.probe("val-file>1KiB");
         }
-        if d.key_len > 2 * 1024 * 1024 {
-            self.stats.probe("key-file>2MiB");
+        if d.key_len > 128 * 1024 {
+            self.stats.probe("key-file>128KiB");
         }
-        if d.val_len > 2 * 1024 * 1024 {
-            self.stats.probe("val-file>2MiB");
+        if d.val_len > 128 * 1024 {
+            self.stats.probe("val-file>128KiB");
+        }
+        if d.val_len > 16 * 1024 * 1024 {
+            self.stats.probe("val-file>16MiB");
+        }
+        if d.max_chain >= 2 {
+            self.stats.probe("chain>=2");
         }
         if d.count == 0 && (d.key_slots.len() + d.val_slots.len()) > 0 {
             self.stats.probe("map-emptied-again");
@@ -136,6 +143,17 @@ impl<'a> World<'a> {
     // ---------------- flush / sync points ----------------
 
     pub fn after_sync(&mut self, name: &str, r: io::Result<()>, ms: Vec<usize>, hd: &mut dyn DynMap) -> StepResult {
+        if self.ep.checks.fault_report {
+            let step = self.step_no;
+            let evs: Vec<(u32, KOp, String, u64, u64)> = kernel::with(|k| {
+                k.step_events
+                    .iter()
+                    .filter(|e| matches!(e.op, KOp::Write | KOp::Fsync | KOp::Fdatasync | KOp::Ftruncate))
+                    .map(|e| (step, e.op, k.inodes[e.ino as usize].path.rsplit('/').next().unwrap_or("").to_string(), e.off, e.len))
+                    .collect()
+            });
+            self.sync_events.extend(evs);
+        }
         let refusal = refusal_in_step();
         match (&r, &refusal) {
             (Err(e), Some(_)) => {
@@ -288,15 +306,73 @@ impl<'a> World<'a> {
 
     // ---------------- growth rule / conservation (C06) ----------------
 
-    pub fn growth_check(&mut self, m: usize, hd: &mut dyn DynMap, single_key: bool) -> StepResult {
+    pub fn post_update_check(&mut self, m: usize, hd: &mut dyn DynMap, single_key: bool, affected: Option<Vec<u8>>) -> StepResult {
         self.flush_quiet(hd)?;
-        let d = match self.decode_and_compare(m, "update") {
-            Ok(d) => d,
-            Err(Stop::Violation(v)) => {
-                return Err(Stop::Violation(Violation { class: "growth".into(), signature: format!("growth:{}", v.signature), ..v }));
+        let d = self.decode_and_compare(m, "update")?;
+        let imgs = self.images(m);
+        // ---- relocation probes and neighbour bytes (pre vs. post)
+        if let (Some(pre), Some(pre_imgs), Some(post_imgs)) = (self.maps[m].last.as_ref(), self.maps[m].last_imgs.as_ref(), imgs.as_ref()) {
+            let pre_by_key: BTreeMap<&[u8], &decoder::KeyRec> = pre.keys.iter().map(|k| (k.key.as_slice(), k)).collect();
+            let mut moved_keys = 0u64;
+            let mut moved_vals = 0u64;
+            let mut compared = 0u64;
+            let mut problem: Option<String> = None;
+            for k in &d.keys {
+                if let Some(p) = pre_by_key.get(k.key.as_slice()) {
+                    let is_affected = affected.as_deref() == Some(k.key.as_slice());
+                    if p.off != k.off {
+                        moved_keys += 1;
+                    }
+                    if p.val_off != k.val_off {
+                        moved_vals += 1;
+                    }
+                    if self.ep.checks.sentinel && !is_affected && problem.is_none() {
+                        // an entry that was not touched keeps the bytes of its value slot, and
+                        // of its key slot when none of its fields changed
+                        if p.val_off == k.val_off {
+                            let vs = d.vals[&k.val_off].size as usize;
+                            if pre.vals.get(&p.val_off).map(|v| v.size as usize) == Some(vs) {
+                                compared += 1;
+                                if pre_imgs[2].get(p.val_off, vs) != post_imgs[2].get(k.val_off, vs) {
+                                    problem = Some(format!("value slot at {} of untouched key [{}]{} changed", k.val_off, k.key.len(), hexser::to_hex(&k.key[..k.key.len().min(12)])));
+                                }
+                            }
+                        }
+                        if p.off == k.off && p.size == k.size && p.val_off == k.val_off && p.next == k.next {
+                            if pre_imgs[1].get(p.off, p.size as usize) != post_imgs[1].get(k.off, k.size as usize) {
+                                problem = Some(format!("key slot at {} of untouched key [{}]{} changed", k.off, k.key.len(), hexser::to_hex(&k.key[..k.key.len().min(12)])));
+                            }
+                        }
+                    }
+                }
             }
-            Err(e) => return Err(e),
-        };
+            if let Some(p) = problem {
+                return Err(viol("neighbour", "bytes-changed".into(), self.step_no, format!("storing one entry altered another: {p}")));
+            }
+            if compared > 0 {
+                self.stats.probe("sentinel-neighbours-compared");
+            }
+            self.stats.probe_n("key-record-relocated", moved_keys);
+            self.stats.probe_n("value-record-relocated", moved_vals);
+            if moved_keys >= 2 && single_key {
+                self.stats.probe("cascaded-relink");
+            }
+            if let Some(a) = affected.as_deref() {
+                if let Some(p) = pre_by_key.get(a) {
+                    let chain_len = pre.chains.iter().find(|(b, _)| *b == p.bucket).map(|(_, c)| c.len()).unwrap_or(1);
+                    let pos = if chain_len == 1 { "affected-only" } else if p.pos_in_chain == 0 { "affected-first" } else if p.pos_in_chain + 1 == chain_len { "affected-last" } else { "affected-middle" };
+                    self.stats.probe(pos);
+                    if moved_keys > 0 {
+                        self.stats.probe(match pos { "affected-only" => "relocation-with-affected-only", "affected-first" => "relocation-with-affected-first", "affected-last" => "relocation-with-affected-last", _ => "relocation-with-affected-middle" });
+                    }
+                }
+            }
+        }
+        self.maps[m].last_imgs = imgs;
+        if !self.ep.checks.growth_rule {
+            self.maps[m].last = Some(d);
+            return Ok(());
+        }
         // live counts per class and peaks
         let mut live_k = [0u64; 16];
         let mut live_v = [0u64; 16];
@@ -461,13 +537,14 @@ fn load_faults(ep: &Episode) {
 }
 
 pub struct OnceResult {
+    pub sync_events: Vec<(u32, KOp, String, u64, u64)>,
     pub stop: Option<Stop>,
     pub images: Vec<Option<[Img; 3]>>,
     pub stats: RunStats,
     pub result_hash: u64,
 }
 
-fn run_once(ep: &Episode, env: &Env, dirbase: &'static str, only_updates: bool, poison: u8) -> OnceResult {
+pub fn run_once(ep: &Episode, env: &Env, dirbase: &'static str, only_updates: bool, poison: u8) -> OnceResult {
     alloc::set_poison(poison);
     load_faults(ep);
     let mut w = World::new(ep, env, dirbase);
@@ -475,7 +552,34 @@ fn run_once(ep: &Episode, env: &Env, dirbase: &'static str, only_updates: bool, 
     let r: StepResult = (|| {
         kernel::with(|k| k.set_step(u32::MAX));
         w.step_no = 0;
-        w.open_initial()?;
+        if let Some(g) = &ep.preload {
+            let (meta, imgs) = crate::golden::load_golden(g).ok_or_else(|| Stop::Inconclusive(format!("golden image {g} not loadable")))?;
+            let paths = w.file_paths(0);
+            kernel::with(|k| {
+                for i in 0..3 {
+                    k.install_file(&paths[i], imgs[i].clone());
+                }
+            });
+            for (k, stored, v) in &meta.contents {
+                w.maps[0].model.insert(hexser::from_hex(stored).unwrap(), (k.clone(), hexser::from_hex(v).unwrap()));
+            }
+            w.maps[0].created = true;
+            w.stats.probe("golden-opened");
+            w.in_reopen = true;
+            let r = w.open_initial();
+            w.in_reopen = false;
+            if let Err(e) = r {
+                return Err(match e {
+                    Stop::Inconclusive(s) => viol("golden", "open-failed".into(), 0, format!("golden image {g} written by the pinned release does not open: {s}")),
+                    v => v,
+                });
+            }
+            if let Err(Stop::Violation(v)) = w.audit_map(0) {
+                return Err(viol("golden", format!("contents:{}", v.signature), 0, format!("golden image {g} written by the pinned release: {}", v.detail)));
+            }
+        } else {
+            w.open_initial()?;
+        }
         let mut inter: u64 = 0xcbf2_9ce4_8422_2325;
         for (i, step) in ep.steps.iter().enumerate() {
             if only_updates {
@@ -506,12 +610,17 @@ fn run_once(ep: &Episode, env: &Env, dirbase: &'static str, only_updates: bool, 
             if kernel::with(|k| k.step_events.iter().any(|e| e.op == KOp::Write)) && !matches!(step, Step::Flush { .. } | Step::SyncAll { .. } | Step::SyncData { .. } | Step::DbSyncAll { .. } | Step::DbSyncData { .. } | Step::Reopen { .. } | Step::CloseSnap { .. } | Step::CloseCompare { .. }) {
                 w.stats.probe("cache-eviction-write");
             }
-            if ep.checks.growth_rule && step.is_update() && !w.faulted {
+            if (ep.checks.growth_rule || ep.checks.post_update) && step.is_update() && !w.faulted {
                 if let (Some(h), Some(m)) = (step.handle(), hm) {
                     let single = matches!(step, Step::Put { .. } | Step::PutStr { .. } | Step::Del { .. } | Step::DelStr { .. });
+                    let kt = w.maps[m].spec.kt;
+                    let affected = match step {
+                        Step::Put { k, .. } | Step::PutStr { k, .. } | Step::Del { k, .. } | Step::DelStr { k, .. } => Some(k.stored(kt)),
+                        _ => None,
+                    };
                     let (mm, mut hd) = w.handles[h as usize].take().unwrap();
                     kernel::with(|k| k.step_events.clear());
-                    let r = w.growth_check(m, &mut *hd, single);
+                    let r = w.post_update_check(m, &mut *hd, single, affected);
                     w.handles[h as usize] = Some((mm, hd));
                     r?;
                 }
@@ -549,6 +658,16 @@ fn run_once(ep: &Episode, env: &Env, dirbase: &'static str, only_updates: bool, 
         if !w.faulted || kernel::with(|k| k.caps.is_empty() && k.inodes.iter().all(|i| i.refuse.is_none())) {
             w.on_closed()?;
         }
+        if ep.checks.file_names {
+            let mut allowed: Vec<String> = Vec::new();
+            for m in 0..w.maps.len() {
+                allowed.extend(w.file_paths(m).iter().cloned());
+            }
+            let extra: Vec<String> = kernel::with(|k| k.paths()).into_iter().filter(|p| !allowed.contains(p) && !p.contains("/x0/")).collect();
+            if !extra.is_empty() {
+                return Err(viol("isolation", "unexpected-file".into(), w.step_no, format!("files outside <dir>/<name>.{{htx,key,val}} were created: {:?}", extra)));
+            }
+        }
         Ok(())
     })();
     // make sure nothing of the crate stays alive (after a violation handles are still open)
@@ -575,7 +694,7 @@ fn run_once(ep: &Episode, env: &Env, dirbase: &'static str, only_updates: bool, 
         stats.bytes_written = k.bytes_written;
     });
     alloc::set_poison(0);
-    OnceResult { stop: r.err(), images, stats, result_hash: w.result_hash }
+    OnceResult { sync_events: std::mem::take(&mut w.sync_events), stop: r.err(), images, stats, result_hash: w.result_hash }
 }
 
 fn merge_stats(a: &mut RunStats, b: RunStats) {
@@ -603,12 +722,13 @@ fn merge_stats(a: &mut RunStats, b: RunStats) {
 /// run one episode (all its plans) on a freshly reset simulated disk
 pub fn run(ep: &Episode, env: &Env) -> Outcome {
     kernel::with(|k| k.reset());
-    let mut out = Outcome { violation: None, inconclusive: None, stats: RunStats::default(), trace_hash: 0, result_hash: 0 };
+    let mut out = Outcome { violation: None, inconclusive: None, stats: RunStats::default(), trace_hash: 0, result_hash: 0, sync_events: Vec::new() };
     match &ep.plan {
         Plan::Single => {
             let r = run_once(ep, env, "d", false, ep.poison);
             out.stats = r.stats;
             out.result_hash = r.result_hash;
+            out.sync_events = r.sync_events;
             match r.stop {
                 Some(Stop::Violation(v)) => out.violation = Some(v),
                 Some(Stop::Inconclusive(s)) => out.inconclusive = Some(s),
